@@ -74,7 +74,8 @@ Record ostate := mko {
   o_first : bool;                      (* no call seen yet in this poll *)
   o_after_thr : bool;                  (* the previous call was a throttle write *)
   o_blocked : bool;                    (* MaxRequests' poll_ready answered Pending in this poll *)
-  o_freed : bool;                      (* capacity may have been freed since MaxRequests last tested its limit *)
+  o_freed : bool;                      (* capacity may have been freed earlier in this poll: a Cancel for a request that may
+                                          have been tracked was read, or an expiry / server-side cancel was due at its start *)
   o_errcall : option activity;         (* a transport call of this poll answered Err *)
   o_v : verdicts }.
 
@@ -208,9 +209,7 @@ Definition o_call (lim : option nat) (o : ostate) (c : call) : ostate :=
                         | Some _ => (o_first o && at_limit) || o_after_thr o
                         | None => false end in
     let blocked := o_blocked o || (maxreq_ready && match r with TPending => true | _ => false end) in
-    (* MaxRequests re-tested its limit just before this call: nothing freed since *)
-    let freed := if maxreq_ready then any_maybe (o_incs o) else o_freed o in
-    with_call o false blocked freed (o_dirty o) (o_eof o)
+    with_call o false blocked (o_freed o) (o_dirty o) (o_eof o)
               (match r with TErr => Some AReady | _ => o_errcall o end)
   | CFlush r =>
     with_call o false (o_blocked o) (o_freed o)
